@@ -945,6 +945,8 @@ class ShapeInterp:
             return v
         if isinstance(v, Int):
             return Str([("int", v.lo)])
+        if isinstance(v, tuple) and v[:1] == ("key",) and isinstance(v[1], str):
+            return lit(v[1])                # a module-level text constant ("/" under a name)
         where = f" at {fi.loc(node)}" if fi is not None and node is not None else ""
         raise AnalysisError(f"shape interpreter: {type(v).__name__} used as string{where}")
 
@@ -1335,12 +1337,14 @@ class ShapeInterp:
             raise AnalysisError(f"shape interpreter: builtin {f.id} at {fi.loc(e)}")
         if isinstance(f, ast.Attribute):
             recv = self.ev(fi, f.value, env)
+            if isinstance(recv, tuple) and recv[:1] == ("key",) and isinstance(recv[1], str) and f.attr in ("join", "format"):
+                recv = lit(recv[1])         # a separator kept under a module-level name
             args = [self.ev(fi, a, env) for a in e.args]
             attr = f.attr
             if isinstance(recv, Counter_):
                 if attr == "pop":
                     sym = args[0]
-                    s = sym.p[0][1] if isinstance(sym, Str) and len(sym.p) == 1 and sym.p[0][0] == "lit" else None
+                    s = sym.p[0][1] if isinstance(sym, Str) and len(sym.p) == 1 and sym.p[0][0] == "lit" else (sym[1] if isinstance(sym, tuple) and sym[:1] == ("key",) and isinstance(sym[1], str) else None)
                     if s is None or not isinstance(f.value, ast.Name):
                         raise AnalysisError(f"shape interpreter: Counter.pop of a non-literal at {fi.loc(e)}")
                     env[f.value.id] = Counter_([x for x in recv.uni if x != s])   # fresh object on this path
